@@ -792,4 +792,41 @@ theorem memo_reads_counterexample :
     (logCollect (liveSlice true sl (VObj.run true st ops) ⟨[], [], []⟩)).cores = 33 := by
   refine ⟨?_, ?_, ?_, ?_⟩ <;> decide
 
+/-! ### one topology object, edited between collections (seeded C11-r7-1) -/
+
+/-- **Views are live** (regenerated flag, probed on a real topology every run: the slice grows and shrinks on the nodes it has
+and every view - and the collector - shows it as it is at that moment). -/
+theorem views_live : viewsLive = true := by decide
+
+/-- **Independence of the history of the object.** However often the topology object was collected and edited before - any
+number of intermediate slices, any earlier reads - the collectors are presented with the slice stored at the time of the
+collection, so the request and the summary are those of that slice (`authz_claims` applies to it as it stands). -/
+theorem presented_after_history (hist : List Slice) (sl : Slice) : ∀ st : View.St,
+    View.presented viewsLive (View.runHist viewsLive st (hist ++ [sl])) = sl := by
+  rw [views_live]
+  induction hist with
+  | nil => intro st; rfl
+  | cons x xs ih =>
+    intro st
+    simp only [List.cons_append, View.runHist]
+    exact ih _
+
+theorem collect_after_history (hist : List Slice) (sl : Slice) (st : View.St) :
+    collect (View.presented viewsLive (View.runHist viewsLive st (hist ++ [sl]))) = collect sl ∧
+    logCollect (View.presented viewsLive (View.runHist viewsLive st (hist ++ [sl]))) = logCollect sl := by
+  rw [presented_after_history]; exact ⟨rfl, rfl⟩
+
+/-- With the interface view kept for as long as the set of nodes stays the same (seeded C11-r7-1): a slice of two VMs is
+collected, then a NIC, a bridge with service port `p1` and a mirror of `p1` are added to the nodes it has - the kept view has
+no port `p1`, and the request lists UKY as a mirror site although the mirrored port is a port of the slice. -/
+theorem kept_view_counterexample :
+    let n1 : NodeS := ⟨"n1", "VM", "RENC", none, none, none⟩
+    let n2 : NodeS := ⟨"n2", "VM", "UKY", none, none, none⟩
+    let st : View.St := ⟨⟨[n1, n2], [], [], [none, none]⟩, none⟩
+    let grown : Slice := ⟨[n1, n2], [⟨"br", "L2Bridge", "RENC", none, none⟩, ⟨"pm", "PortMirror", "UKY", none, some "p1"⟩], [],
+                          [none, none, some (some "p1"), none]⟩
+    get (collect (View.presented false (View.runHist false st [grown, grown]))) .RESOURCE_MIRROR_SITE = [.s "UKY"] ∧
+    get (collect (View.presented true (View.runHist true st [grown, grown]))) .RESOURCE_MIRROR_SITE = [] := by
+  refine ⟨?_, ?_⟩ <;> decide
+
 end FimVerif.C11
